@@ -3,6 +3,7 @@ import sdl_impl as si
 
 PID = "C01"
 IMPORTS = "SdlModel SdlObs"
+TABLES = ["check_flags"]     # harness/tables.py: the snapshot-flag arithmetic of _try_put_index, re-translated from the source on every run
 FUNCS = ["torchdata/stateful_dataloader/stateful_dataloader.py:_StatefulMultiProcessingDataLoaderIter.__init__",
          "torchdata/stateful_dataloader/stateful_dataloader.py:_StatefulMultiProcessingDataLoaderIter._next_data",
          "torchdata/stateful_dataloader/stateful_dataloader.py:_StatefulMultiProcessingDataLoaderIter._process_data",
